@@ -685,7 +685,7 @@ pub fn evaluation_order_programs() -> Vec<Vec<Stmt>> {
 /// inside a block / als branch / one-shot loop that does or does not declare `i` again before the use, inside
 /// a function whose parameter is `i`, or after a second declaration in the same scope. Every printed value
 /// identifies the declaration that was resolved. All sequences of `len` events, at top level, inside a block
-/// and inside a function body (where `i` is a local slot).
+/// inside a function body (where `i` is a local slot), and inside a function body while a global `i` exists too.
 pub fn scope_event_programs(len: usize, f: &mut dyn FnMut(Vec<Stmt>)) {
     let use_kind = |k: usize| -> Stmt {
         match k {
@@ -727,6 +727,31 @@ pub fn scope_event_programs(len: usize, f: &mut dyn FnMut(Vec<Stmt>)) {
         menu.push(vec![es(func("g", &["i"], body)), print1(calln("g", vec![int(700)]))]);
     }
     menu.push(vec![let_("i", int(60))]);
+    // a function WITHOUT parameters, called on the spot, that uses the name: functions see the globals, never the
+    // locals of the function around them
+    for k in 0..KINDS {
+        if k == 5 {
+            continue;
+        }
+        menu.push(vec![print1(call(func("", &[], vec![use_kind(k), es(int(0))]), vec![]))]);
+    }
+    // the name declared by a NAMED FUNCTION LITERAL in operand position (assigned, called on the spot, a list
+    // element, an argument) — directly, and inside a block / branch / loop that declares nothing else
+    let named_literal = |form: usize| -> Stmt {
+        let lit = func("i", &[], vec![es(int(77))]);
+        match form {
+            0 => es(assign(id("j"), lit)),
+            1 => print1(call(lit, vec![])),
+            2 => print1(calln("lengte", vec![array(vec![lit])])),
+            _ => print1(calln("type", vec![lit])),
+        }
+    };
+    for form in 0..4 {
+        menu.push(vec![named_literal(form), es(assign(id("j"), int(3)))]);
+        for scope_kind in 0..3 {
+            menu.push(vec![wrap_scope(scope_kind, vec![named_literal(form), es(assign(id("j"), int(3)))])]);
+        }
+    }
     let total = menu.len().pow(len as u32);
     for code in 0..total {
         let mut c = code;
@@ -742,8 +767,23 @@ pub fn scope_event_programs(len: usize, f: &mut dyn FnMut(Vec<Stmt>)) {
             let_("arr", array(vec![int(11), int(22), int(33)])),
             es(func("ident", &["v"], vec![es(id("v"))])),
         ];
-        for context in 0..3 {
+        for context in 0..4 {
             let prog: Vec<Stmt> = match context {
+                3 => {
+                    // inside a function, while a GLOBAL of the same name exists too
+                    let mut body: Vec<Stmt> = vec![let_("once", int(0)), let_("j", int(3)), let_("arr", array(vec![int(11), int(22), int(33)]))];
+                    body.extend(seq.clone());
+                    body.push(es(id("i")));
+                    vec![
+                        let_("i", int(1000)),
+                        let_("j", int(2000)),
+                        let_("arr", array(vec![int(1), int(2), int(3)])),
+                        es(func("ident", &["v"], vec![es(id("v"))])),
+                        es(func("h", &["n"], body)),
+                        print1(calln("h", vec![int(1)])),
+                        print1(id("i")),
+                    ]
+                }
                 0 => {
                     let mut p = pre.clone();
                     p.extend(seq.clone());
